@@ -1,6 +1,5 @@
-(** C11_accepts: every schema the independent checker [valid_f true] accepts (the
-    specification, minus integer literals as defaults of dict-form float/double types) is
-    accepted by the parser model. *)
+(** C11_accepts: every schema the independent checker [valid_raw] accepts is accepted by the
+    parser model. *)
 From Coq Require Import String Ascii Lia ZifyBool.
 From FA Require Import model.Base model.Json model.Parse model.SchemaSpec model.Canon
      proofs.JsonProofs proofs.ParseProofs proofs.CanonProofs.
@@ -109,35 +108,64 @@ Proof.
 Qed.
 
 (** ---- the checker's definitions and the parser's state ---- *)
+Definition kind_type (k : kind) (t : string) : Prop :=
+  match k with KRecord => t = "record" | KEnum => t = "enum" | KFixed => t = "fixed" end.
+
+(* names are among the checker's definitions; every definition of the checker has a table entry
+   (a dict) of the same kind *)
 Definition rel (ds : defs) (st : pstate) : Prop :=
   (forall n, mem n (st_names st) = true -> jhas n ds = true) /\
-  (forall n, jhas n ds = true -> jhas n (st_tbl st) = true).
+  (forall n k, jget n ds = Some k ->
+     exists kv t, jget n (st_tbl st) = Some (JObj kv) /\ jget "type" kv = Some (JStr t) /\ kind_type k t).
+
+Definition kept (ds ds' : defs) : Prop := forall n k, jget n ds = Some k -> jget n ds' = Some k.
+
+Lemma jget_app {A} n (a b : list (string * A)) :
+  jget n (a ++ b)%list = match jget n a with Some v => Some v | None => jget n b end.
+Proof.
+  induction a as [|[k v] r IH]; cbn [app jget]; [reflexivity|]. destruct (String.eqb n k); [reflexivity|exact IH].
+Qed.
 
 Lemma jhas_app {A} n (a b : list (string * A)) : jhas n (a ++ b)%list = jhas n a || jhas n b.
-Proof. rewrite !jhas_keys. unfold keys. rewrite map_app. apply mem_app. Qed.
+Proof. unfold jhas. rewrite jget_app. destruct (jget n a); reflexivity. Qed.
 
 Lemma jhas_single {A} n k (v : A) : jhas n [(k, v)] = String.eqb n k.
 Proof. unfold jhas. cbn [jget]. now destruct (String.eqb n k). Qed.
 
+Lemma kept_snoc ds n k : kept ds (ds ++ [(n, k)])%list.
+Proof. intros m k' G. rewrite jget_app, G. reflexivity. Qed.
+
+Lemma kept_trans a b c : kept a b -> kept b c -> kept a c.
+Proof. unfold kept. auto. Qed.
+
 Lemma rel_fresh ds st full : rel ds st -> jhas full ds = false -> mem full (st_names st) = false.
 Proof. intros [R _] H. destruct (mem full (st_names st)) eqn:M; [|reflexivity]. rewrite (R _ M) in H. discriminate H. Qed.
 
-Lemma rel_declare ds st full k v :
-  rel ds st -> rel (ds ++ [(full, k)])%list (set_tbl full v (declared full st)).
+Lemma rel_declare ds st full k kv t :
+  rel ds st -> jhas full ds = false -> jget "type" kv = Some (JStr t) -> kind_type k t ->
+  rel (ds ++ [(full, k)])%list (set_tbl full (JObj kv) (declared full st)).
 Proof.
-  intros [R1 R2]. split; intros n H; cbn [set_tbl declared st_names st_tbl] in *.
-  - rewrite mem_app in H. rewrite jhas_app, jhas_single. apply Bool.orb_true_iff in H.
+  intros [R1 R2] F T K. split; cbn [set_tbl declared st_names st_tbl].
+  - intros n H. rewrite mem_app in H. rewrite jhas_app, jhas_single. apply Bool.orb_true_iff in H.
     destruct H as [H|H]; [now rewrite (R1 _ H)|]. cbn [mem existsb] in H. rewrite Bool.orb_false_r in H.
     rewrite H. apply Bool.orb_true_r.
-  - rewrite jhas_app, jhas_single in H. apply Bool.orb_true_iff in H. destruct H as [H|H].
-    + apply jhas_jset_mono. now apply R2.
-    + apply String.eqb_eq in H. subst. apply jhas_jset_eq.
+  - intros n k' G. rewrite jget_app in G. destruct (jget n ds) as [k0|] eqn:G0.
+    + injection G as <-. destruct (R2 _ _ G0) as (kv0 & t0 & A & B & C).
+      exists kv0, t0. split; [|auto]. rewrite jget_jset_neq; [exact A|].
+      destruct (String.eqb_spec n full); [subst; unfold jhas in F; rewrite G0 in F; discriminate F|reflexivity].
+    + cbn [jget] in G. destruct (String.eqb_spec n full); [|discriminate G]. injection G as <-. subst n.
+      exists kv, t. rewrite jget_jset_eq. repeat split; auto.
 Qed.
 
-Lemma rel_set ds st k v : rel ds st -> rel ds (set_tbl k v st).
+Lemma rel_close ds st full kv :
+  rel ds st -> jget full ds = Some KRecord -> jget "type" kv = Some (JStr "record") ->
+  rel ds (set_tbl full (JObj kv) st).
 Proof.
-  intros [R1 R2]. split; intros n H; cbn [set_tbl st_names st_tbl] in *; [auto|].
-  apply jhas_jset_mono. auto.
+  intros [R1 R2] G T. split; cbn [set_tbl st_names st_tbl]; [exact R1|].
+  intros n k G'. destruct (String.eqb_spec n full) as [->|NE].
+  - rewrite G in G'. injection G' as <-. exists kv, "record". rewrite jget_jset_eq. repeat split; auto.
+  - destruct (R2 _ _ G') as (kv0 & t0 & A & B & C). exists kv0, t0. rewrite jget_jset_neq; [auto|].
+    now apply String.eqb_neq.
 Qed.
 
 (** ---- defaults ---- *)
@@ -172,48 +200,29 @@ Proof.
 Qed.
 
 Lemma prim_default_matches s dv :
-  spec_is_prim s = true -> prim_default_ok s dv = true -> default_matches dv (JStr s) = POk true.
+  spec_is_prim s = true -> prim_default_ok s dv = true -> default_matches_prim dv (JStr s) = POk true.
 Proof.
   intros P H. pose proof (prim_default_no_overflow _ _ P H) as NO.
   destruct (spec_prim_cases _ P) as [-> | [-> | [-> | [-> | [-> | [-> | [-> | ->]]]]]]];
     cbn [prim_default_ok String.eqb Ascii.eqb Bool.eqb orb] in H;
-    cbn [default_matches String.eqb Ascii.eqb Bool.eqb];
+    cbn [default_matches_prim String.eqb Ascii.eqb Bool.eqb];
     destruct dv; try discriminate H; try reflexivity;
-    cbn [maybe_float_is_float]; cbn [no_overflow] in NO; now rewrite NO.
+    cbn [is_jbool maybe_float_is_float]; cbn [no_overflow] in NO; now rewrite NO.
 Qed.
 
-Lemma prim_default_matches_strict t dv :
-  spec_is_prim t = true -> prim_default_ok_strict t dv = true -> default_matches_strict dv t = true.
+Lemma default_prim_total dv s : no_overflow dv -> exists b, default_matches_prim dv s = POk b.
 Proof.
-  intros P H.
-  destruct (spec_prim_cases _ P) as [-> | [-> | [-> | [-> | [-> | [-> | [-> | ->]]]]]]];
-    cbn [prim_default_ok_strict prim_default_ok String.eqb Ascii.eqb Bool.eqb orb] in H;
-    cbn [default_matches_strict String.eqb Ascii.eqb Bool.eqb];
-    destruct dv; try discriminate H; reflexivity.
-Qed.
-
-(* default_matches never raises when the default is not an overflowing integer *)
-Lemma default_matches_total dv p : no_overflow dv -> exists b, default_matches dv p = POk b.
-Proof.
-  intros NO. unfold default_matches. destruct p; eauto.
+  intros NO. unfold default_matches_prim. destruct s; eauto.
   repeat match goal with |- context [if ?c then _ else _] => destruct c; eauto end.
   all: unfold maybe_float_is_float; destruct dv; eauto; cbn [no_overflow] in NO; rewrite NO; eauto.
 Qed.
 
-(** ---- the shape of a parsed union member, as far as the default check looks ---- *)
-Definition pshape (j p : json) : Prop :=
-  match j with
-  | JStr s => if is_prim s then p = JStr s else exists q, p = JStr q /\ is_prim q = false
-  | JObj _ => exists kv', p = JObj kv'
-  | _ => True
-  end.
-
-Lemma nonprim_matches dv q : is_prim q = false -> default_matches dv (JStr q) = POk true.
+Lemma default_leaf_total dv kv t :
+  no_overflow dv -> jget "type" kv = Some (JStr t) -> exists b, default_matches_leaf dv (JObj kv) = POk b.
 Proof.
-  unfold is_prim, mem, PRIMITIVES. cbn [existsb]. intros H.
-  repeat (apply Bool.orb_false_iff in H; destruct H as [? H]).
-  unfold default_matches.
-  repeat match goal with E : String.eqb q ?x = false |- _ => rewrite E; clear E end. reflexivity.
+  intros NO T. cbn [default_matches_leaf]. rewrite T.
+  repeat match goal with |- context [if ?c then _ else _] => destruct c; eauto end.
+  now apply default_prim_total.
 Qed.
 
 Lemma prim_has_no_dot s : is_prim s = true -> has_dot s = false.
@@ -232,41 +241,95 @@ Proof.
   apply prim_has_no_dot in Q. rewrite has_dot_join in Q. discriminate Q.
 Qed.
 
-Lemma member_match ds ns m p dv :
-  member_default_ok ds ns m dv = true -> pshape m p ->
-  default_matches dv p = POk true /\ no_overflow dv.
+(* a reference whose definition the checker knows: the code judges the default by the table entry *)
+Lemma ref_default ds st q k dv :
+  rel ds st -> is_prim q = false -> jget q ds = Some k ->
+  (kind_default_ok k dv = true -> default_matches (st_tbl st) dv (JStr q) = POk true) /\
+  (exists b, default_matches (st_tbl st) dv (JStr q) = POk b).
 Proof.
-  intros H S. destruct m as [| | | |s| |kv]; try discriminate H; cbn [member_default_ok pshape] in *.
-  - rewrite is_prim_spec in S. destruct (spec_is_prim s) eqn:P.
-    + subst p. split; [now apply prim_default_matches|eapply prim_default_no_overflow; eauto].
-    + destruct S as (q & -> & Q). split; [now apply nonprim_matches|].
-      destruct (jget (spec_ref ns s) ds) as [k|]; [|discriminate H].
-      destruct dv; try exact I. destruct k; discriminate H.
-  - destruct S as (kv' & ->). split; [reflexivity|].
-    destruct (jget "type" kv) as [[| | | |t| |]|]; try discriminate H.
-    destruct (spec_is_prim t) eqn:P; [eapply prim_default_no_overflow; eauto|].
-    destruct dv; try exact I.
-    repeat match type of H with (if ?c then _ else _) = true => destruct c; try discriminate H end.
+  intros [_ R2] P G. destruct (R2 _ _ G) as (kv & t & A & B & C).
+  rewrite (default_ref_by_definition _ dv _ _ P A), (default_complex_member _ _ _ B).
+  destruct k; cbn [kind_type] in C; subst t; cbn [String.eqb Ascii.eqb Bool.eqb orb]; (split; [|eauto]);
+    destruct dv; try discriminate; reflexivity.
 Qed.
 
-Lemma exists_no_overflow ds ns dv : forall l ps,
-  Forall2 pshape l ps -> existsb (fun m => member_default_ok ds ns m dv) l = true -> no_overflow dv.
+(** ---- the shape of a parsed union member, as far as the default check looks ---- *)
+Definition pshape (ns : string) (ds : defs) (j p : json) : Prop :=
+  match j with
+  | JStr s => if is_prim s then p = JStr s
+              else p = JStr (qualify ns s) /\ exists k, jget (qualify ns s) ds = Some k
+  | JObj kv => exists kv' t, p = JObj kv' /\ jget "type" kv = Some (JStr t) /\ jget "type" kv' = Some (JStr t)
+  | JArr _ => True
+  | _ => False
+  end.
+
+Lemma pshape_kept ns ds ds' j p : kept ds ds' -> pshape ns ds j p -> pshape ns ds' j p.
 Proof.
-  intros l ps F. induction F as [|m p l ps S F IH]; intros E; cbn [existsb] in E; [discriminate E|].
-  apply Bool.orb_true_iff in E. destruct E as [M|E]; [exact (proj2 (member_match _ _ _ _ _ M S))|auto].
+  intros K S. destruct j; cbn [pshape] in *; auto.
+  destruct (is_prim s); [exact S|]. destruct S as [E (k & G)]. split; [exact E|]. exists k. now apply K.
 Qed.
 
-Lemma any_match_ok ds ns dv : forall l ps,
-  Forall2 pshape l ps -> existsb (fun m => member_default_ok ds ns m dv) l = true ->
-  any_match dv ps = POk true.
+Lemma member_match ds st ns m p dv :
+  rel ds st -> pshape ns ds m p ->
+  (member_default_ok ds ns m dv = true -> default_matches (st_tbl st) dv p = POk true /\ no_overflow dv) /\
+  (no_overflow dv -> (forall l, m <> JArr l) -> exists b, default_matches (st_tbl st) dv p = POk b).
 Proof.
-  intros l ps F. induction F as [|m p l ps S F IH]; intros E; [discriminate E|].
-  pose proof (exists_no_overflow _ _ _ _ _ (Forall2_cons _ _ S F) E) as NO.
+  intros R S. destruct m as [| | | |s|l|kv]; cbn [member_default_ok pshape] in *.
+  1-4: destruct S.
+  - (* a name *)
+    rewrite is_prim_spec in S. destruct (spec_is_prim s) eqn:P.
+    + subst p. assert (P' : is_prim s = true) by (now rewrite is_prim_spec).
+      cbn [default_matches]. rewrite P'. cbn [negb andb default_matches_leaf]. split.
+      * intros H. split; [now apply prim_default_matches|eapply prim_default_no_overflow; eauto].
+      * intros NO _. now apply default_prim_total.
+    + destruct S as [-> (k & G)].
+      assert (Q : is_prim (qualify ns s) = false) by (apply qualify_nonprim; now rewrite is_prim_spec).
+      destruct (ref_default _ _ _ _ dv R Q G) as [A B]. split; [|intros _ _; exact B].
+      rewrite <- qualify_spec, G. intros H. split; [auto|]. destruct dv; try exact I. destruct k; discriminate H.
+  - split; [discriminate|]. intros _ NL. exfalso. now apply (NL l).
+  - destruct S as (kv' & t & -> & T & T'). rewrite T. cbn [default_matches].
+    rewrite (default_complex_member _ _ _ T'). split.
+    + intros H. destruct (spec_is_prim t) eqn:P.
+      * assert (P' : is_prim t = true) by (now rewrite is_prim_spec).
+        destruct (prim_not_complex _ P') as (N1 & N2 & N3 & N4 & N5 & N6). rewrite N1, N2, N3, N4, N5, N6.
+        cbn [orb]. split; [now apply prim_default_matches|eapply prim_default_no_overflow; eauto].
+      * destruct (String.eqb_spec t "array") as [->|N1];
+          [cbn [String.eqb Ascii.eqb Bool.eqb orb] in *; destruct dv; try discriminate H; split; [reflexivity|exact I]|].
+        destruct (String.eqb_spec t "map") as [->|N2];
+          [cbn [String.eqb Ascii.eqb Bool.eqb orb] in *; destruct dv; try discriminate H; split; [reflexivity|exact I]|].
+        destruct (String.eqb_spec t "record") as [->|N3];
+          [cbn [String.eqb Ascii.eqb Bool.eqb orb] in *; destruct dv; try discriminate H; split; [reflexivity|exact I]|].
+        destruct (String.eqb_spec t "enum") as [->|N4];
+          [cbn [String.eqb Ascii.eqb Bool.eqb orb] in *; destruct dv; try discriminate H; split; [reflexivity|exact I]|].
+        destruct (String.eqb_spec t "fixed") as [->|N5];
+          [cbn [String.eqb Ascii.eqb Bool.eqb orb] in *; destruct dv; try discriminate H; split; [reflexivity|exact I]|].
+        cbn [orb] in H. discriminate H.
+    + intros NO _.
+      repeat match goal with |- context [if ?c then _ else _] => destruct c; eauto end.
+      now apply default_prim_total.
+Qed.
+
+Lemma exists_no_overflow ds st ns dv : rel ds st -> forall l ps,
+  Forall2 (pshape ns ds) l ps -> existsb (fun m => member_default_ok ds ns m dv) l = true -> no_overflow dv.
+Proof.
+  intros R l ps F. induction F as [|m p l ps S F IH]; intros E; cbn [existsb] in E; [discriminate E|].
+  apply Bool.orb_true_iff in E. destruct E as [M|E]; [|auto].
+  exact (proj2 (proj1 (member_match _ _ _ _ _ dv R S) M)).
+Qed.
+
+Lemma any_match_ok ds st ns dv : rel ds st -> forall l ps,
+  Forall2 (pshape ns ds) l ps -> (forall m, In m l -> forall x, m <> JArr x) ->
+  existsb (fun m => member_default_ok ds ns m dv) l = true ->
+  any_match (st_tbl st) dv ps = POk true.
+Proof.
+  intros R l ps F. induction F as [|m p l ps S F IH]; intros NL E; [discriminate E|].
+  pose proof (exists_no_overflow _ _ _ _ R _ _ (Forall2_cons _ _ S F) E) as NO.
   cbn [existsb] in E. cbn [any_match].
+  destruct (member_match _ _ _ _ _ dv R S) as [A B].
   destruct (member_default_ok ds ns m dv) eqn:M.
-  - rewrite (proj1 (member_match _ _ _ _ _ M S)). reflexivity.
-  - cbn [orb] in E. destruct (default_matches_total dv p NO) as [b ->]. cbn [pbind].
-    destruct b; [reflexivity|auto].
+  - rewrite (proj1 (A eq_refl)). reflexivity.
+  - cbn [orb] in E. destruct (B NO (NL m (or_introl eq_refl))) as [b ->]. cbn [pbind].
+    destruct b; [reflexivity|]. apply IH; [|exact E]. intros m' I. apply NL. now right.
 Qed.
 
 (** ---- the induction ---- *)
@@ -274,7 +337,7 @@ Definition vfun := json -> string -> defs -> option json -> option defs.
 
 Definition accepts_spec (v : vfun) (rec : recfun) : Prop :=
   forall j ns ds d ds' st wh, v j ns ds d = Some ds' -> rel ds st ->
-    exists p st', rec j ns wh st d = POk (p, st') /\ rel ds' st' /\ pshape j p.
+    exists p st', rec j ns wh st d = POk (p, st') /\ rel ds' st' /\ kept ds ds' /\ pshape ns ds' j p.
 
 Section AcceptStep.
   Variable v : vfun.
@@ -283,16 +346,22 @@ Section AcceptStep.
 
   Lemma members_accept ns : forall l ds ds' st,
     valid_members v ns l ds = Some ds' -> rel ds st ->
-    exists ps st', parse_members rec ns l st = POk (ps, st') /\ rel ds' st' /\ Forall2 pshape l ps.
+    exists ps st', parse_members rec ns l st = POk (ps, st') /\ rel ds' st' /\ kept ds ds' /\
+                   Forall2 (pshape ns ds') l ps /\ (forall m, In m l -> forall x, m <> JArr x).
   Proof.
     induction l as [|m r IHl]; intros ds ds' st H R; cbn [valid_members parse_members] in *.
-    - injection H as <-. eauto.
-    - assert (V : exists ds1, v m ns ds None = Some ds1 /\ valid_members v ns r ds1 = Some ds').
-      { destruct m; try discriminate H; destruct (v _ ns ds None) as [ds1|]; try discriminate H; eauto. }
-      destruct V as (ds1 & V1 & V2).
-      destruct (IH _ _ _ _ _ _ false V1 R) as (p & st1 & P1 & R1 & S1).
-      destruct (IHl _ _ _ V2 R1) as (ps & st2 & P2 & R2 & S2).
-      exists (p :: ps), st2. rewrite P1. cbn [pbind]. rewrite P2. cbn [pbind]. auto.
+    - injection H as <-. exists [], st. split; [reflexivity|]. split; [exact R|]. split; [intros n k G; exact G|].
+      split; [constructor|intros m []].
+    - assert (V : (forall x, m <> JArr x) /\ exists ds1, v m ns ds None = Some ds1 /\ valid_members v ns r ds1 = Some ds').
+      { destruct m; try discriminate H; (split; [intros x; discriminate|]);
+          destruct (v _ ns ds None) as [ds1|]; try discriminate H; eauto. }
+      destruct V as (NA & ds1 & V1 & V2).
+      destruct (IH _ _ _ _ _ _ false V1 R) as (p & st1 & P1 & R1 & K1 & S1).
+      destruct (IHl _ _ _ V2 R1) as (ps & st2 & P2 & R2 & K2 & S2 & NL).
+      exists (p :: ps), st2. rewrite P1. cbn [pbind]. rewrite P2. cbn [pbind].
+      split; [reflexivity|]. split; [exact R2|]. split; [eapply kept_trans; eauto|]. split.
+      + constructor; [eapply pshape_kept; eauto|exact S2].
+      + intros m' [<-|I]; auto.
   Qed.
 
   Lemma aliases_kept fkv :
@@ -306,7 +375,7 @@ Section AcceptStep.
 
   Lemma field_accept ns fd ds ds' st :
     valid_field v ns fd ds = Some ds' -> rel ds st ->
-    exists p st', parse_field rec ns fd st = POk (p, st') /\ rel ds' st'.
+    exists p st', parse_field rec ns fd st = POk (p, st') /\ rel ds' st' /\ kept ds ds'.
   Proof.
     unfold valid_field, parse_field. intros H R.
     destruct fd as [| | | | | |fkv]; try discriminate H.
@@ -319,27 +388,31 @@ Section AcceptStep.
                 | None => POk tt | Some (JArr _) => POk tt | Some _ => PErrParse end = (POk tt : pres unit)).
     { destruct (jget "aliases" fkv) as [[| | | | |al|]|]; try discriminate C; reflexivity. }
     rewrite A. cbn [pbind].
-    destruct (IH _ _ _ _ _ _ false H R) as (p & st1 & P1 & R1 & _).
+    destruct (IH _ _ _ _ _ _ false H R) as (p & st1 & P1 & R1 & K1 & _).
     rewrite P1. cbn [pbind]. eauto.
   Qed.
 
   Lemma fields_accept ns : forall l ds ds' st,
     valid_fields v ns l ds = Some ds' -> rel ds st ->
-    exists ps st', parse_fields rec ns l st = POk (ps, st') /\ rel ds' st'.
+    exists ps st', parse_fields rec ns l st = POk (ps, st') /\ rel ds' st' /\ kept ds ds'.
   Proof.
     induction l as [|fd r IHl]; intros ds ds' st H R; cbn [valid_fields parse_fields] in *.
-    - injection H as <-. eauto.
+    - injection H as <-. exists [], st. split; [reflexivity|]. split; [exact R|intros n k G; exact G].
     - destruct (valid_field v ns fd ds) as [ds1|] eqn:V1; [|discriminate H].
-      destruct (field_accept _ _ _ _ _ V1 R) as (p & st1 & P1 & R1).
-      destruct (IHl _ _ _ H R1) as (ps & st2 & P2 & R2).
-      exists (p :: ps), st2. rewrite P1. cbn [pbind]. rewrite P2. cbn [pbind]. auto.
+      destruct (field_accept _ _ _ _ _ V1 R) as (p & st1 & P1 & R1 & K1).
+      destruct (IHl _ _ _ H R1) as (ps & st2 & P2 & R2 & K2).
+      exists (p :: ps), st2. rewrite P1. cbn [pbind]. rewrite P2. cbn [pbind].
+      split; [reflexivity|]. split; [exact R2|eapply kept_trans; eauto].
   Qed.
 
   Lemma check_default_ok d (f g : json -> bool) :
     (forall x, f x = true -> g x = true) -> opt_ok f d = true -> check_default d g = POk tt.
   Proof. intros E O. destruct d as [dv|]; [|reflexivity]. cbn [opt_ok check_default] in *. now rewrite (E _ O). Qed.
 
-  Lemma node_accept : accepts_spec (valid_node true v) (parse_node rec).
+  Lemma kept_refl ds : kept ds ds.
+  Proof. intros n k G; exact G. Qed.
+
+  Lemma node_accept : accepts_spec (valid_node v) (parse_node rec).
   Proof.
     intros j ns ds d ds' st wh H R.
     destruct j as [| | | |s|l|kv]; cbn [valid_node] in H; try discriminate H.
@@ -347,22 +420,27 @@ Section AcceptStep.
       cbn [parse_node pshape]. rewrite is_prim_spec.
       destruct (spec_is_prim s) eqn:P.
       + destruct (opt_ok (prim_default_ok s) d) eqn:O; [|discriminate H]. injection H as <-.
-        exists (JStr s), st. split; [|auto].
+        exists (JStr s), st. split; [|auto using kept_refl].
         destruct d as [dv|]; [|reflexivity]. cbn [opt_ok] in O. rewrite (prim_default_matches _ _ P O). reflexivity.
       + destruct (jget (spec_ref ns s) ds) as [k|] eqn:G; [|discriminate H].
-        destruct (opt_ok (kind_default_ok k) d); [|discriminate H]. injection H as <-.
+        destruct (opt_ok (kind_default_ok k) d) eqn:O; [|discriminate H]. injection H as <-.
+        rewrite <- qualify_spec in G.
+        assert (Q : is_prim (qualify ns s) = false) by (apply qualify_nonprim; now rewrite is_prim_spec).
         assert (J : jhas (qualify ns s) (st_tbl st) = true).
-        { rewrite qualify_spec. apply (proj2 R). unfold jhas. now rewrite G. }
-        rewrite J. exists (JStr (qualify ns s)), st. split; [reflexivity|]. split; [exact R|].
-        exists (qualify ns s). split; [reflexivity|]. apply qualify_nonprim. now rewrite is_prim_spec.
+        { destruct (proj2 R _ _ G) as (kv & t & A & _). unfold jhas. now rewrite A. }
+        rewrite J. exists (JStr (qualify ns s)), st. split; [|split; [exact R|split; [apply kept_refl|eauto]]].
+        destruct d as [dv|]; [|reflexivity]. cbn [opt_ok] in O.
+        rewrite (proj1 (ref_default _ _ _ _ dv R Q G) O). reflexivity.
     - (* union *)
       destruct (nodup_str (map (union_key ns) l)); [|discriminate H].
       destruct (valid_members v ns l ds) as [ds1|] eqn:VM; [|discriminate H].
       destruct (opt_ok (fun dv => existsb (fun m => member_default_ok ds1 ns m dv) l) d) eqn:O; [|discriminate H].
       injection H as <-.
-      destruct (members_accept _ _ _ _ _ VM R) as (ps & st1 & PM & R1 & F).
-      cbn [parse_node]. rewrite PM. cbn [pbind]. exists (JArr ps), st1. split; [|split; [exact R1|exact I]].
-      destruct d as [dv|]; [|reflexivity]. cbn [opt_ok] in O. rewrite (any_match_ok _ _ _ _ _ F O). reflexivity.
+      destruct (members_accept _ _ _ _ _ VM R) as (ps & st1 & PM & R1 & K1 & F & NL).
+      cbn [parse_node]. rewrite PM. cbn [pbind]. exists (JArr ps), st1.
+      split; [|split; [exact R1|split; [exact K1|exact I]]].
+      destruct d as [dv|]; [|reflexivity]. cbn [opt_ok] in O.
+      rewrite (any_match_ok _ _ _ _ R1 _ _ F NL O). reflexivity.
     - (* dict *)
       destruct (jget "type" kv) as [[| | | |t| |]|] eqn:T; try discriminate H.
       destruct (decimal_ok kv t) eqn:DO; cbn [negb] in H; [|discriminate H].
@@ -370,26 +448,34 @@ Section AcceptStep.
       cbn [parse_node pshape]. unfold parse_dict. rewrite T. fold (base_of kv (JStr t)). rewrite DC. cbn [pbind].
       destruct (spec_is_prim t) eqn:P.
       { (* primitive in dict form *)
-        destruct (opt_ok (prim_default_ok_strict t) d) eqn:O; [|discriminate H]. injection H as <-.
-        rewrite <- is_prim_spec in P. destruct (prim_not_complex _ P) as (N1 & N2 & N3 & N4 & N5 & N6).
-        rewrite N1, N2, N3, N4, N5, N6, P. cbn [orb].
-        rewrite (check_default_ok d (prim_default_ok_strict t) (fun dv => default_matches_strict dv t)); [|
-          intros x X; apply prim_default_matches_strict; [now rewrite <- is_prim_spec|exact X] | exact O].
-        cbn [pbind]. eauto 10. }
+        destruct (opt_ok (prim_default_ok t) d) eqn:O; [|discriminate H]. injection H as <-.
+        pose proof P as P'. rewrite <- is_prim_spec in P'.
+        destruct (prim_not_complex _ P') as (N1 & N2 & N3 & N4 & N5 & N6).
+        rewrite N1, N2, N3, N4, N5, N6, P'. cbn [orb].
+        assert (DF : match d with
+                     | None => POk tt
+                     | Some dv => let+ b := default_matches_prim dv (JStr t) in if b then POk tt else PErrParse
+                     end = (POk tt : pres unit)).
+        { destruct d as [dv|]; [|reflexivity]. cbn [opt_ok] in O. now rewrite (prim_default_matches _ _ P O). }
+        rewrite DF. cbn [pbind]. do 2 eexists. split; [reflexivity|]. split; [exact R|]. split; [apply kept_refl|].
+        do 2 eexists. split; [reflexivity|]. split; [reflexivity|apply base_type]. }
       destruct (String.eqb t "array") eqn:E1.
       { destruct (jget "items" kv) as [it|]; [|discriminate H].
         match type of H with (if ?c then _ else _) = _ => destruct c eqn:O; [|discriminate H] end.
-        destruct (IH _ _ _ _ _ _ false H R) as (p & st1 & P1 & R1 & _). rewrite P1. cbn [pbind].
+        destruct (IH _ _ _ _ _ _ false H R) as (p & st1 & P1 & R1 & K1 & _). rewrite P1. cbn [pbind].
         rewrite (check_default_ok d _ is_jarr (fun x X => X) O).
-        cbn [pbind]. eauto 10. }
+        cbn [pbind]. do 2 eexists. split; [reflexivity|]. split; [exact R1|]. split; [exact K1|].
+        do 2 eexists. split; [reflexivity|]. split; [reflexivity|]. getk. reflexivity. }
       destruct (String.eqb t "map") eqn:E2.
       { destruct (jget "values" kv) as [it|]; [|discriminate H].
         match type of H with (if ?c then _ else _) = _ => destruct c eqn:O; [|discriminate H] end.
-        destruct (IH _ _ _ _ _ _ false H R) as (p & st1 & P1 & R1 & _). rewrite P1. cbn [pbind].
+        destruct (IH _ _ _ _ _ _ false H R) as (p & st1 & P1 & R1 & K1 & _). rewrite P1. cbn [pbind].
         rewrite (check_default_ok d _ is_jobj (fun x X => X) O).
-        cbn [pbind]. eauto 10. }
+        cbn [pbind]. do 2 eexists. split; [reflexivity|]. split; [exact R1|]. split; [exact K1|].
+        do 2 eexists. split; [reflexivity|]. split; [reflexivity|]. getk. reflexivity. }
       destruct (String.eqb t "enum") eqn:E3.
-      { match type of H with (if ?c then _ else _) = _ => destruct c eqn:C; [|discriminate H] end.
+      { apply String.eqb_eq in E3. subst t.
+        match type of H with (if ?c then _ else _) = _ => destruct c eqn:C; [|discriminate H] end.
         apply Bool.andb_true_iff in C. destruct C as [C OD]. apply Bool.andb_true_iff in C. destruct C as [NO FR].
         apply Bool.negb_true_iff in FR.
         destruct (jget "symbols" kv) as [[| | | | |syms|]|] eqn:SY; try discriminate H.
@@ -403,34 +489,51 @@ Section AcceptStep.
           destruct (jget "default" kv) as [[| | | |dv| |]|]; try discriminate DF; [|reflexivity]. now rewrite DF. }
         rewrite V. cbn [pbind].
         rewrite (check_default_ok d _ is_jstr (fun x X => X) OD).
-        cbn [pbind]. do 2 eexists. split; [reflexivity|]. split; [apply rel_declare; exact R|eauto]. }
+        cbn [pbind]. do 2 eexists. split; [reflexivity|].
+        split; [apply (rel_declare _ _ _ KEnum _ "enum" R FR); [getk; reflexivity|reflexivity]|].
+        split; [apply kept_snoc|]. do 2 eexists. split; [reflexivity|]. split; [reflexivity|]. getk. reflexivity. }
       destruct (String.eqb t "fixed") eqn:E4.
-      { match type of H with (if ?c then _ else _) = _ => destruct c eqn:C; [|discriminate H] end.
+      { apply String.eqb_eq in E4. subst t.
+        match type of H with (if ?c then _ else _) = _ => destruct c eqn:C; [|discriminate H] end.
         injection H as <-.
         apply Bool.andb_true_iff in C. destruct C as [C SZ]. apply Bool.andb_true_iff in C. destruct C as [C OD].
         apply Bool.andb_true_iff in C. destruct C as [NO FR]. apply Bool.negb_true_iff in FR.
         rewrite (name_ok_schema_name _ ns NO). cbn [pbind]. unfold declare. rewrite (rel_fresh _ _ _ R FR). cbn [pbind].
         rewrite (check_default_ok d _ is_jstr (fun x X => X) OD).
         cbn [pbind]. destruct (jget "size" kv) as [sz|]; [|discriminate SZ].
-        do 2 eexists. split; [reflexivity|]. split; [apply rel_declare; exact R|eauto]. }
+        do 2 eexists. split; [reflexivity|].
+        split; [apply (rel_declare _ _ _ KFixed _ "fixed" R FR); [getk; reflexivity|reflexivity]|].
+        split; [apply kept_snoc|]. do 2 eexists. split; [reflexivity|]. split; [reflexivity|]. getk. reflexivity. }
       destruct (String.eqb t "record") eqn:E5; [|discriminate H].
+      apply String.eqb_eq in E5. subst t.
       match type of H with (if ?c then _ else _) = _ => destruct c eqn:C; [|discriminate H] end.
       apply Bool.andb_true_iff in C. destruct C as [C OD]. apply Bool.andb_true_iff in C. destruct C as [NO FR].
       apply Bool.negb_true_iff in FR.
       destruct (jget "fields" kv) as [[| | | | |fl|]|] eqn:FL; try discriminate H.
       destruct (nodup_str (field_names fl)); [|discriminate H].
-      cbn [orb].
+      cbn [orb String.eqb Ascii.eqb Bool.eqb].
       rewrite (name_ok_schema_name _ ns NO). cbn [pbind]. unfold declare. rewrite (rel_fresh _ _ _ R FR). cbn [pbind].
+      fold (rbase kv "record" (spec_fullname ns kv) ns).
       rewrite (check_default_ok d _ is_jobj (fun x X => X) OD).
       cbn [pbind].
+      assert (R2 : rel (ds ++ [(spec_fullname ns kv, KRecord)])%list
+                       (set_tbl (spec_fullname ns kv) (JObj (rbase kv "record" (spec_fullname ns kv) ns))
+                                (declared (spec_fullname ns kv) st))).
+      { apply (rel_declare _ _ _ KRecord _ "record" R FR); [getk; reflexivity|reflexivity]. }
       match goal with |- context [parse_fields rec ?n ?l ?s] =>
-        destruct (fields_accept n l _ _ s H (rel_declare _ _ _ KRecord _ R)) as (fs & st3 & PF & R3) end.
+        destruct (fields_accept n l _ _ s H R2) as (fs & st3 & PF & R3 & K3) end.
       rewrite PF. cbn [pbind].
-      destruct wh; do 2 eexists; (split; [reflexivity|]); (split; [apply rel_set; exact R3|eauto]).
+      assert (G : jget (spec_fullname ns kv) ds' = Some KRecord).
+      { apply K3. rewrite jget_app. unfold jhas in FR. destruct (jget (spec_fullname ns kv) ds); [discriminate FR|].
+        cbn [jget]. now rewrite String.eqb_refl. }
+      assert (KK : kept ds ds') by (eapply kept_trans; [apply kept_snoc|exact K3]).
+      destruct wh; do 2 eexists; (split; [reflexivity|]);
+        (split; [apply rel_close; [exact R3|exact G|getk; reflexivity]|]);
+        (split; [exact KK|]); do 2 eexists; (split; [reflexivity|]); (split; [reflexivity|]); getk; reflexivity.
   Qed.
 End AcceptStep.
 
-Theorem accept_rec f : accepts_spec (valid_f true f) (parse_rec f).
+Theorem accept_rec f : accepts_spec (valid_f f) (parse_rec f).
 Proof.
   induction f as [|f IH]; cbn [valid_f parse_rec].
   - intros j ns ds d ds' st wh H. discriminate H.
@@ -438,145 +541,56 @@ Proof.
 Qed.
 
 (** ---- parse_schema ---- *)
-Lemma run_parse_accept f j ds ds' t :
-  valid_f true f j "" ds None = Some ds' -> (forall n, jhas n ds = true -> jhas n t = true) ->
-  exists p t', run_parse f j t = POk (p, t') /\ (forall n, jhas n ds' = true -> jhas n t' = true).
+Lemma top_member_accept f m ds ds' st :
+  unmarked m = true -> (forall x, m <> JArr x) ->
+  valid_f f m "" ds None = Some ds' -> rel ds st ->
+  exists p st', parse_schema_rec (S f) m st = POk (p, st') /\ rel ds' st'.
 Proof.
-  intros V K. unfold run_parse.
-  assert (R : rel ds (mkst [] t)) by (split; [intros n H; discriminate H|exact K]).
-  destruct (accept_rec f _ _ _ _ _ _ true V R) as (p & st' & P & [_ R2] & _).
-  rewrite P. cbn [pbind]. eauto.
+  intros U A V R. cbn [parse_schema_rec]. unfold run_parse.
+  destruct (accept_rec f _ _ _ _ _ _ true V R) as (p & st' & P & R' & _).
+  destruct m as [| | | | |l|kv]; eauto; [exfalso; now apply (A l)|].
+  rewrite unmarked_obj in U. apply Bool.negb_true_iff in U. rewrite U. eauto.
 Qed.
 
-Lemma top_member_accept f m ds ds' t :
-  unmarked m = true -> is_jarr m = false ->
-  valid_f true f m "" ds None = Some ds' -> (forall n, jhas n ds = true -> jhas n t = true) ->
-  exists p t', parse_schema_rec (S f) m t = POk (p, t') /\ (forall n, jhas n ds' = true -> jhas n t' = true).
-Proof.
-  intros U A V K. cbn [parse_schema_rec].
-  destruct m as [| | | | |l|kv]; try (eapply run_parse_accept; eauto; fail); [discriminate A|].
-  unfold unmarked in U. rewrite jfold_obj in U. apply Bool.negb_true_iff in U. rewrite U.
-  eapply run_parse_accept; eauto.
-Qed.
-
-Lemma tops_accept f : forall l ds ds' t,
+Lemma tops_accept f : forall l ds ds' st,
   forallb unmarked l = true ->
-  valid_members (valid_f true f) "" l ds = Some ds' -> (forall n, jhas n ds = true -> jhas n t = true) ->
-  exists ps t', parse_tops (parse_schema_rec (S f)) l t = POk (ps, t').
+  valid_members (valid_f f) "" l ds = Some ds' -> rel ds st ->
+  exists ps st', parse_tops (parse_schema_rec (S f)) l st = POk (ps, st').
 Proof.
-  induction l as [|m r IH]; intros ds ds' t U V K; cbn [parse_tops]; [eauto|].
+  induction l as [|m r IH]; intros ds ds' st U V R; cbn [parse_tops]; [eauto|].
   cbn [forallb] in U. apply Bool.andb_true_iff in U. destruct U as [U1 U2].
   cbn [valid_members] in V.
-  assert (W : is_jarr m = false /\ exists ds1, valid_f true f m "" ds None = Some ds1 /\
-              valid_members (valid_f true f) "" r ds1 = Some ds').
-  { destruct m; try discriminate V; (split; [reflexivity|]);
-      destruct (valid_f true f _ "" ds None) as [ds1|]; try discriminate V; eauto. }
+  assert (W : (forall x, m <> JArr x) /\ exists ds1, valid_f f m "" ds None = Some ds1 /\
+              valid_members (valid_f f) "" r ds1 = Some ds').
+  { destruct m; try discriminate V; (split; [intros x; discriminate|]);
+      destruct (valid_f f _ "" ds None) as [ds1|]; try discriminate V; eauto. }
   destruct W as (A & ds1 & V1 & V2).
-  destruct (top_member_accept f m ds ds1 t U1 A V1 K) as (p & t1 & P1 & K1).
+  destruct (top_member_accept f m ds ds1 st U1 A V1 R) as (p & st1 & P1 & R1).
   rewrite P1. cbn [pbind].
-  destruct (IH _ _ _ U2 V2 K1) as (ps & t2 & P2). rewrite P2. cbn [pbind]. eauto.
+  destruct (IH _ _ _ U2 V2 R1) as (ps & st2 & P2). rewrite P2. cbn [pbind]. eauto.
 Qed.
 
-Theorem valid_strict_accepted j :
-  unmarked j = true -> valid_strict j = true -> exists f r, parse_schema f j [] = POk r.
+Lemma rel_empty t : rel [] (mkst [] t).
+Proof. split; [intros n H; discriminate H|intros n k H; discriminate H]. Qed.
+
+Theorem valid_accepted j :
+  unmarked j = true -> valid_raw j = true -> exists f r, parse_schema f j [] = POk r.
 Proof.
-  unfold valid_strict. intros U V.
-  destruct (valid_f true (S (S (jdepth j))) j "" [] None) as [ds'|] eqn:E; [clear V|discriminate V].
-  assert (K : forall n, jhas n (@nil (string * kind)) = true -> jhas n (@nil (string * json)) = true)
-    by (intros n H; discriminate H).
+  unfold valid_raw. intros U V.
+  destruct (valid_f (S (S (jdepth j))) j "" [] None) as [ds'|] eqn:E; [clear V|discriminate V].
+  pose proof (rel_empty []) as K.
   destruct j as [| | | | |l|kv].
   6: { (* top-level union *)
     set (F := S (jdepth (JArr l))) in *.
     cbn [valid_f] in E. cbn [valid_node] in E.
     destruct (nodup_str (map (union_key "") l)); [|discriminate E].
-    destruct (valid_members (valid_f true F) "" l []) as [ds1|] eqn:VM; [|discriminate E].
+    destruct (valid_members (valid_f F) "" l []) as [ds1|] eqn:VM; [|discriminate E].
     rewrite unmarked_arr in U.
-    destruct (tops_accept _ _ _ _ _ U VM K) as (ps & t' & P).
+    destruct (tops_accept _ _ _ _ _ U VM K) as (ps & st' & P).
     exists (S (S F)). unfold parse_schema.
-    change (parse_schema_rec (S (S F)) (JArr l) [])
-      with (pbind (parse_tops (parse_schema_rec (S F)) l []) (fun '(ps, t1) => POk (JArr ps, t1))).
+    change (parse_schema_rec (S (S F)) (JArr l) (mkst [] []))
+      with (pbind (parse_tops (parse_schema_rec (S F)) l (mkst [] [])) (fun '(ps, st1) => POk (JArr ps, st1))).
     rewrite P. cbn [pbind]. eauto. }
-  all: destruct (top_member_accept _ _ _ _ _ U eq_refl E K) as (p & t' & P & _);
+  all: destruct (top_member_accept _ _ _ _ _ U ltac:(intros x; discriminate) E K) as (p & st' & P & _);
     eexists; unfold parse_schema; rewrite P; cbn [pbind]; eauto.
-Qed.
-
-(** ---- valid_strict is a sub-class of valid_raw ---- *)
-Lemma strict_default_ok t d : opt_ok (prim_default_ok_strict t) d = true -> opt_ok (prim_default_ok t) d = true.
-Proof.
-  destruct d as [dv|]; [|reflexivity]. cbn [opt_ok]. unfold prim_default_ok_strict.
-  destruct (String.eqb t "float" || String.eqb t "double") eqn:E; [|auto].
-  intros H. destruct dv; try discriminate H. unfold prim_default_ok.
-  destruct (String.eqb t "null") eqn:E1; [apply String.eqb_eq in E1; subst; discriminate E|].
-  destruct (String.eqb t "boolean") eqn:E2; [apply String.eqb_eq in E2; subst; discriminate E|].
-  destruct (String.eqb t "int") eqn:E3; [apply String.eqb_eq in E3; subst; discriminate E|].
-  destruct (String.eqb t "long") eqn:E4; [apply String.eqb_eq in E4; subst; discriminate E|].
-  now rewrite E.
-Qed.
-
-Definition weaker (v1 v2 : vfun) : Prop :=
-  forall j ns ds d ds', v1 j ns ds d = Some ds' -> v2 j ns ds d = Some ds'.
-
-Section Weaken.
-  Variables v1 v2 : vfun.
-  Hypothesis W : weaker v1 v2.
-
-  Lemma members_weaker ns : forall l ds ds',
-    valid_members v1 ns l ds = Some ds' -> valid_members v2 ns l ds = Some ds'.
-  Proof.
-    induction l as [|m r IHl]; intros ds ds' H; cbn [valid_members] in *; [exact H|].
-    destruct m; try discriminate H;
-      (destruct (v1 _ ns ds None) as [ds1|] eqn:E; [|discriminate H]; rewrite (W _ _ _ _ _ E); auto).
-  Qed.
-
-  Lemma fields_weaker ns : forall l ds ds',
-    valid_fields v1 ns l ds = Some ds' -> valid_fields v2 ns l ds = Some ds'.
-  Proof.
-    induction l as [|fd r IHl]; intros ds ds' H; cbn [valid_fields] in *; [exact H|].
-    destruct (valid_field v1 ns fd ds) as [ds1|] eqn:E; [|discriminate H].
-    assert (E2 : valid_field v2 ns fd ds = Some ds1).
-    { unfold valid_field in *. destruct fd; try discriminate E.
-      destruct (jget "name" kv) as [[| | | |n| |]|]; try discriminate E.
-      destruct (jget "type" kv); [|discriminate E].
-      match type of E with (if ?c then _ else _) = _ => destruct c; [|discriminate E] end. auto. }
-    rewrite E2. auto.
-  Qed.
-
-  Lemma node_weaker : weaker (valid_node true v1) (valid_node false v2).
-  Proof.
-    intros j ns ds d ds' H. destruct j as [| | | |s|l|kv]; cbn [valid_node] in *; try discriminate H.
-    - exact H.
-    - destruct (nodup_str (map (union_key ns) l)); [|discriminate H].
-      destruct (valid_members v1 ns l ds) as [ds1|] eqn:E; [|discriminate H].
-      now rewrite (members_weaker _ _ _ _ E).
-    - destruct (jget "type" kv) as [[| | | |t| |]|]; try discriminate H.
-      destruct (negb (decimal_ok kv t)); [discriminate H|].
-      destruct (spec_is_prim t).
-      { destruct (opt_ok (prim_default_ok_strict t) d) eqn:O; [|discriminate H]. now rewrite (strict_default_ok _ _ O). }
-      destruct (String.eqb t "array").
-      { destruct (jget "items" kv); [|discriminate H].
-        match type of H with (if ?c then _ else _) = _ => destruct c; [|discriminate H] end. auto. }
-      destruct (String.eqb t "map").
-      { destruct (jget "values" kv); [|discriminate H].
-        match type of H with (if ?c then _ else _) = _ => destruct c; [|discriminate H] end. auto. }
-      destruct (String.eqb t "enum"); [exact H|].
-      destruct (String.eqb t "fixed"); [exact H|].
-      destruct (String.eqb t "record"); [|discriminate H].
-      match type of H with (if ?c then _ else _) = _ => destruct c; [|discriminate H] end.
-      destruct (jget "fields" kv) as [[| | | | |fl|]|]; try discriminate H.
-      destruct (nodup_str (field_names fl)); [|discriminate H].
-      now apply fields_weaker.
-  Qed.
-End Weaken.
-
-Lemma valid_f_weaker f : weaker (valid_f true f) (valid_f false f).
-Proof.
-  induction f as [|f IH]; cbn [valid_f]; [intros j ns ds d ds' H; discriminate H|].
-  apply node_weaker. exact IH.
-Qed.
-
-Theorem valid_strict_raw j : valid_strict j = true -> valid_raw j = true.
-Proof.
-  unfold valid_strict, valid_raw.
-  destruct (valid_f true (S (S (jdepth j))) j "" [] None) eqn:E; [|discriminate].
-  now rewrite (valid_f_weaker _ _ _ _ _ _ E).
 Qed.
